@@ -69,6 +69,7 @@ type Rec struct {
 	Body      bytes.Buffer
 	WHCalls   int
 	WriteCall int
+	Flushes   []int // number of body bytes the client had been sent at each Flush
 }
 
 func NewRec() *Rec { return &Rec{H: http.Header{}} }
@@ -104,6 +105,7 @@ func (r *Rec) Flush() {
 	if r.Status == 0 {
 		r.WriteHeader(200)
 	}
+	r.Flushes = append(r.Flushes, r.Body.Len())
 }
 
 // ClientBody is the body as an HTTP/1.1 client receives it: when the response declares a Content-Length the client
@@ -269,11 +271,26 @@ func routeFunc(id int, entity ...bool) restful.RouteFunction {
 			o.addInvoke(iv)
 		}
 		resp.AddHeader("X-Rid", strconv.Itoa(id))
+		// what a handler does to its own Response on behalf of one request (asked for through the X-Do header)
+		do := req.Request.Header.Get("X-Do")
+		if do == "pretty-off" {
+			resp.PrettyPrint(false)
+		}
 		if writeEntity {
 			resp.WriteEntity(EntityDoc{Rid: id})
+			if do == "flush" {
+				resp.Flush()
+			}
 			return
 		}
 		resp.WriteHeader(200)
+		if do == "flush" {
+			// a streaming handler: the first chunk is pushed to the client before the rest is produced
+			resp.Write([]byte("r"))
+			resp.Flush()
+			resp.Write([]byte(strconv.Itoa(id)))
+			return
+		}
 		resp.Write([]byte("r" + strconv.Itoa(id)))
 	}
 }
@@ -392,6 +409,41 @@ func Build(t *Table, o BuildOpts) *restful.Container {
 }
 
 // BuildWS is Build that also hands out the WebServices (indexed like Table.Svcs; nil where a service was not built).
+// RemoveRoutesLike removes, from a registered dynamic WebService, the route with the given id the way a user does it:
+// look the route up in ws.Routes(), call RemoveRoute(route.Path, route.Method). RemoveRoute removes EVERY route of that
+// method and path (twins in other representations included); the specification is updated accordingly and the ids that
+// are gone are returned.
+func RemoveRoutesLike(ws *restful.WebService, svc *SvcSpec, victimID int) (gone []int, err error) {
+	var path, method string
+	found := false
+	for _, r := range ws.Routes() {
+		if id, ok := r.Metadata["rid"].(int); ok && id == victimID {
+			path, method, found = r.Path, r.Method, true
+		}
+	}
+	if !found {
+		return nil, nil
+	}
+	dead := map[int]bool{}
+	for _, r := range ws.Routes() {
+		if r.Path == path && r.Method == method {
+			if id, ok := r.Metadata["rid"].(int); ok {
+				dead[id] = true
+				gone = append(gone, id)
+			}
+		}
+	}
+	err = ws.RemoveRoute(path, method)
+	keep := svc.Routes[:0:0]
+	for _, r := range svc.Routes {
+		if !dead[r.ID] {
+			keep = append(keep, r)
+		}
+	}
+	svc.Routes = keep
+	return gone, err
+}
+
 func BuildWS(t *Table, o BuildOpts) (*restful.Container, []*restful.WebService) {
 	wss := make([]*restful.WebService, len(t.Svcs))
 	c := restful.NewContainer()
